@@ -297,6 +297,8 @@ def isErrCb (s : String) : Bool := s ≠ "ok" ∧ s ≠ "-"
 def verdict (ws : List JWrite) (k : Nat) : List Op → List String → Option String
   | op :: ops, out :: outs =>
     let t := toks out
+    if out.startsWith "panic" then some s!"violation panic op={k} out={(out.replace " " "_").take 60}" else
+    if out = "bad-op" ∨ out = "dead" then none else
     match op with
     | .w c =>
       if !inStatement c then none else
